@@ -89,7 +89,14 @@ pub fn gen_base(rng: &mut Rng, cfg: &BaseCfg) -> (J, StdTable, Sel, Shape) {
             let mut s = gen_aggregate(rng, &t.schema, &acfg);
             // floating-point sums of squares of 2^53-sized numbers depend on the order of addition by more than any tolerance
             // (and 2^62-sized sums overflow in some orders only): not part of the big-integer cases
-            if big_ints { for _ in 0..40 { let txt = s.text(Paren::Full); if !(txt.contains("stddev") || txt.contains("variance") || txt.contains("sum") || txt.contains("avg") || txt.contains(" * ") || txt.contains(" + ") || txt.contains("pow")) { break; } s = gen_aggregate(rng, &t.schema, &acfg); } }
+            if big_ints {
+                let risky = |s: &Sel| { let txt = s.text(Paren::Full); txt.contains("stddev") || txt.contains("variance") || txt.contains("sum") || txt.contains("avg") || txt.contains(" * ") || txt.contains(" + ") || txt.contains(" - ") || txt.contains("pow") };
+                for _ in 0..20 { if !risky(&s) { break; } s = gen_aggregate(rng, &t.schema, &acfg); }
+                if risky(&s) {
+                    s = Sel { from: "t".into(), group_by: Some(vec![col("k")]), ..Default::default() };
+                    s.projs = vec![(col("k"), None), (E::Agg("min".into(), false, vec![col("i")]), None), (E::Agg("max".into(), false, vec![col("i")]), Some("hi".into())), (E::Agg("count".into(), true, vec![col("i")]), None), (E::Agg("percentile".into(), false, vec![col("i"), E::Real(0.5)]), None)];
+                }
+            }
             s
         }
         _ => { let mut s = gen_select(rng, &t.schema, &StmtCfg { expr: ecfg.clone(), allow_distinct: false, allow_limit: false, allow_star: true, max_limit: 0 }); if shape == Shape::Distinct { s.distinct = true; } s }
@@ -110,6 +117,6 @@ pub fn gen_base(rng: &mut Rng, cfg: &BaseCfg) -> (J, StdTable, Sel, Shape) {
         }
     }
     let mut u = t.spec.clone(); u.name = "u".into();
-    let case = json!({"tables": format!("{} {}", t.spec.text(), u.text()), "stmt": sel.text(Paren::Full), "lines": lines, "joined": joined, "shape": format!("{:?}", shape)});
+    let case = json!({"tables": format!("{} {}", t.spec.text(), u.text()), "stmt": sel.text(Paren::Full), "lines": lines, "joined": joined, "shape": format!("{:?}", shape), "big_ints": big_ints});
     (case, t, sel, shape)
 }
